@@ -9,8 +9,9 @@ use std::error::Error;
 use std::ops::Deref;
 
 /// Generate a discrete domain of values which are linearly spaced between `start` and `end` and
-/// which have a total count of `n`. The first value will be `start` and the last value will be
-/// `end`.
+/// which have a total count of `n`. The first value will be the smaller of `start` and `end` and
+/// the last value will be the larger one, so that the values are always in ascending order. See
+/// `DiscreteDomain::linear` for the handling of `n < 2`.
 ///
 /// # Arguments
 ///
@@ -28,12 +29,7 @@ use std::ops::Deref;
 /// assert_eq!(domain.values(), vec![0.0, 0.5, 1.0]);
 /// ```
 pub fn linear_space(start: f64, end: f64, n: usize) -> DiscreteDomain {
-    let mut values = Vec::with_capacity(n);
-    let step = (end - start) / (n - 1) as f64;
-    for i in 0..n {
-        values.push(start + i as f64 * step);
-    }
-    DiscreteDomain { values }
+    DiscreteDomain::linear(start, end, n)
 }
 
 /// A discrete domain of scalar f64 values, in which all values are guaranteed to be finite and in ascending order.
@@ -51,8 +47,9 @@ impl DiscreteDomain {
     }
 
     /// Generate a discrete domain of values which are linearly spaced between `start` and `end` and
-    /// which have a total count of `n`. The first value will be `start` and the last value will be
-    /// `end`.
+    /// which have a total count of `n`. The first value will be the smaller of `start` and `end`
+    /// and the last value will be the larger one. With `n == 1` the domain consists of the smaller
+    /// bound only, with `n == 0` it is empty.
     ///
     /// # Arguments
     ///
@@ -64,6 +61,13 @@ impl DiscreteDomain {
     pub fn linear(start: f64, end: f64, n: usize) -> Self {
         let mut values = Vec::with_capacity(n);
         let (start, end) = (start.min(end), start.max(end));
+        if n < 2 {
+            // there is no step to take: (end - start) / 0 would put a NaN into the domain
+            if n == 1 {
+                values.push(start);
+            }
+            return DiscreteDomain { values };
+        }
         let step = (end - start) / (n - 1) as f64;
         for i in 0..n {
             values.push(start + i as f64 * step);
